@@ -138,6 +138,20 @@ fn bulk_one(kind: &str, inp: &[u8]) -> Vec<u8> {
             o
         }
         "sc_reduce" => Scalar::reduce_from_wide_bytes(&a64(&inp[..64])).to_bytes().to_vec(),
+        "poly1305" => {
+            // key 32 bytes, message of 0..=96 bytes delivered in two input calls
+            use cryptoxide::mac::Mac;
+            let key = a32(&inp[..32]);
+            let mlen = (inp[32] as usize) % 97;
+            let cut = (inp[33] as usize) % (mlen + 1);
+            let msg = &inp[34..34 + mlen];
+            let mut m = cryptoxide::poly1305::Poly1305::new(&key);
+            m.input(&msg[..cut]);
+            m.input(&msg[cut..]);
+            let mut t = [0xa5u8; 16];
+            m.raw_result(&mut t);
+            t.to_vec()
+        }
         "fe_mix" => {
             let x = Fe::from_bytes(&a32(&inp[..32]));
             let y = Fe::from_bytes(&a32(&inp[32..64]));
@@ -178,6 +192,7 @@ pub fn bulk_len(kind: &str) -> usize {
         "x25519_base" | "fe_inv" => 32,
         "ed_sign" => 96,
         "ge_dsm" => 96,
+        "poly1305" => 130,
         _ => panic!("bulk kind {}", kind),
     }
 }
@@ -191,18 +206,24 @@ pub fn run(op: &str, a: &[&str]) -> Vec<String> {
             let (seed, start, count, block) = (u64p(a[1]), u64p(a[2]), u64p(a[3]), u64p(a[4]).max(1));
             let len = bulk_len(kind);
             let mut out = Vec::new();
-            let mut h: u64 = 0xcbf29ce484222325;
+            // block hash (mirrored by cxv/bulk.py): sum over the calls of a block of the 16-byte little-endian chunks of the output,
+            // each multiplied by an odd weight that depends on (call position in the block, chunk index), modulo 2^128
+            let mut h: u128 = 0;
             for i in start..start + count {
                 let o = bulk_one(kind, &bulk_input(seed, i, len));
-                for b in &o {
-                    h = (h ^ (*b as u64)).wrapping_mul(0x100000001b3);
+                let pos = (i - start) % block;
+                for (j, c) in o.chunks(16).enumerate() {
+                    let mut b = [0u8; 16];
+                    b[..c.len()].copy_from_slice(c);
+                    let w: u128 = 2 * ((pos as u128) * 16 + j as u128) + 1;
+                    h = h.wrapping_add(u128::from_le_bytes(b).wrapping_mul(w));
                 }
-                if (i - start) % block == 0 {
+                if pos == 0 {
                     out.push(format!("{}:{}", i, hex(&o)));
                 }
-                if (i - start) % block == block - 1 || i == start + count - 1 {
-                    out.push(format!("h{:016x}", h));
-                    h = 0xcbf29ce484222325;
+                if pos == block - 1 || i == start + count - 1 {
+                    out.push(format!("h{:032x}", h));
+                    h = 0;
                 }
             }
             out
@@ -217,6 +238,15 @@ pub fn run(op: &str, a: &[&str]) -> Vec<String> {
         "x_base" => {
             let k = x25519::SecretKey::from(a32(&expand(a[0])));
             vec![hex(x25519::base(&k).as_ref())]
+        }
+        // x_dhc <k> <u> <cc> : the x25519 module with each way of constructing the keys (a = From<[u8; 32]>, s = TryFrom<&[u8]>);
+        // reports dh(k, u), base(k) and the bytes the key objects give back
+        "x_dhc" => {
+            let (kb, ub) = (a32(&expand(a[0])), a32(&expand(a[1])));
+            let c = a[2].as_bytes();
+            let k = if c[0] == b'a' { x25519::SecretKey::from(kb) } else { x25519::SecretKey::try_from(&kb[..]).expect("TYPE") };
+            let u = if c[1] == b'a' { x25519::PublicKey::from(ub) } else { x25519::PublicKey::try_from(&ub[..]).expect("TYPE") };
+            vec![hex(x25519::dh(&k, &u).as_ref()), hex(x25519::base(&k).as_ref())]
         }
         // x_try <sk|pk|ss> <bytes> : TryFrom<&[u8]>
         "x_try" => {
